@@ -43,6 +43,7 @@ STORAGE_EFFECTS = STORAGE_WRITE_EFFECTS | STORAGE_READ_EFFECTS | {F_SYNC_ALL, S_
 RW_WRITE = "lock_api::rwlock::RwLock::<R, T>::write"
 RW_READ = "lock_api::rwlock::RwLock::<R, T>::read"
 MUTEX_LOCK = "lock_api::mutex::Mutex::<R, T>::lock"
+LOCK_NAMES = {RW_WRITE, RW_READ, MUTEX_LOCK}
 
 
 def is_(name):
@@ -75,3 +76,22 @@ def is_io(c):
 
 def is_storage_or_io(c):
     return c in STORAGE_EFFECTS or is_io(c)
+
+
+PATH_ADDRESSED_FS = {"std::fs::rename", "std::fs::File::create", "std::fs::File::open", "std::fs::remove_file",
+                     "std::fs::remove_dir_all", "std::fs::create_dir_all", "std::fs::read", "std::fs::write",
+                     "std::fs::OpenOptions::open", "std::fs::read_to_string", "std::fs::metadata", "std::path::Path::exists",
+                     "std::fs::File::options", "std::fs::read_dir", "std::fs::copy"}
+
+
+def path_addressed_pred(P):
+    """Callee is a path-addressed storage access: a Storage trait method (trait path or any impl of it) or a std::fs
+    function taking a path."""
+    storage_methods = {m for m in STORAGE_EFFECTS if m.startswith(STOR + "::")}
+
+    def pred(c):
+        if c in storage_methods or c in PATH_ADDRESSED_FS:
+            return True
+        f = P.fns.get(c)
+        return f is not None and f.impl_trait == STOR and not c.endswith("::root")
+    return pred
